@@ -99,6 +99,7 @@ def serve_cases(prop, tier, seed):
         g.fam_range_ignored(cb)
         g.fam_lex_range(cb, n=4 if not T else 5)
         g.fam_lex_tags(cb, n=4)
+        g.fam_deep(cb)
     elif prop == "C14":
         g.fam_clock(cb, pairs=2 if not T else 6)
         g.fam_echo(cb)
@@ -145,7 +146,7 @@ def serve_nontrivial(prop, c):
     if prop == "C20":
         return c.get("extra", 0) >= 1
     if prop == "C13":
-        return c["cls"].startswith("env") or c["cls"] in ("range_big", "range_ignored", "lex_range", "lex_tags")
+        return c["cls"].startswith("env") or c["cls"] in ("range_big", "range_ignored", "lex_range", "lex_tags", "deep")
     if prop == "C14":
         return c["cls"] in ("echo", "meta") or a != {}
     if prop == "C15":
@@ -193,7 +194,10 @@ def case_signature(prop, c):
     """Stable human-readable identification of a failing case, for known_findings matching."""
     parts = [prop, c.get("cls", ""), c.get("method", "")]
     for h in c.get("hdrs", []):
-        parts.append("%s: %s" % (h[0], h[1] if isinstance(h[1], str) else "hex:" + h[1].get("hex", "")))
+        v = h[1] if isinstance(h[1], str) else "hex:" + h[1].get("hex", "")
+        if len(v) > 300:
+            v = "%s...(%d bytes)...%s" % (v[:60], len(v), v[-30:])
+        parts.append("%s: %s" % (h[0], v))
     if "ent" in c:
         parts.append("L=%d" % servegen.unlimbs(c["ent"]["len"]))
         parts.append("etag=%s" % c["ent"]["etag"].get("s"))
